@@ -12,8 +12,8 @@ from c09 import canon_obs, root_cls, sub_patterns, CannotJudge
 PROP = "C04"
 META = {
  "engine": "P-pattern-algebra",
- "text": "Coq theorems (Props/C04.v, closed under the global context) prove on the executable model of the pattern classes (Pat/Step.v: __init__, __next__, reset() incl. Pattern.reset's walk over vars(self)): for the reset fragment (constants, sequences, series, ranges, geometric series, impulses, the 15 operators, &, abs, int, references, stutter, counter, no-repeats, pad, pad-to-multiple, skip-if, collapse, index-of ... nested to any depth) reset() after ANY number of next() calls - including calls that raised StopIteration - yields exactly the state reset() yields on the untouched object, which for a newly constructed object is the object itself; hence the outputs after reset() are those of a new instance, repeated resets change nothing, and all() leaves the object rewound. The model is tied to the repository on every run by scripts next^k; reset; next^n; reset; next^n; all(m); next^n with k at 0, 1, block boundaries, exhaustion and beyond, on random expressions over every modelled class, compared inside Coq; an implementation-only oracle compares every post-reset output with a freshly constructed instance.",
- "note": "Trusted: Coq kernel + VM; the harness. Stochastic classes are the business of C11 (reseeding); here they are outside the model. Deterministic classes outside the model (PEuclidean PArpeggiator PNormalise PTri PSaw PPermut) are judged by the oracle only. Patterns stored inside tuples are not reached by Pattern.reset (the model transcribes that); the generator puts tuples of scalars only.",
+ "text": "Coq theorems (Props/C04.v, closed under the global context) prove on the executable model of the pattern classes (Pat/Step.v: __init__, __next__, reset() incl. Pattern.reset's walk over vars(self)): for the reset fragment rpat (constants, sequences of scalars, series, ranges, geometric series, impulses, the 15 operators, &, abs, int, references, stutter, counter, pad, pad-to-multiple, skip-if, loop, ping-pong, reverse, subsequence, collapse, no-repeats, changed, diff, wrap, reset-on-trigger over a counter-state class, nested to any depth, parameters scalars or patterns of the fragment; proved closed under next(): C04_fragment_closed) reset() after ANY number of next() calls - including calls that raised StopIteration - yields exactly the state reset() yields on the untouched object, which for a newly constructed object is the object itself; hence the outputs after reset() are those of a new instance, repeated resets change nothing, and all() leaves the object rewound. The model is tied to the repository on every run by scripts next^k; reset; next^n; reset; next^n; all(m); next^n with k at 0, 1, block boundaries, exhaustion and beyond, on random expressions over every modelled class, compared inside Coq; an implementation-only oracle compares every post-reset output with a freshly constructed instance.",
+ "note": "Open (C04_reset_erases_step_leaf_partial): PReset over nested patterns, PRound PIndexOf PArrayIndex PDict PDictKey PConcatenate and list-/tuple-/dict-valued parameters are covered by the correspondence and the oracle, not by the theorem. Trusted: Coq kernel + VM; the harness. Stochastic classes are the business of C11 (reseeding); here they are outside the model. Deterministic classes outside the model (PEuclidean PArpeggiator PNormalise PTri PSaw PPermut) are judged by the oracle only. Patterns stored inside tuples are not reached by Pattern.reset (the model transcribes that); the generator puts tuples of scalars only.",
 }
 
 REFN = 26
